@@ -8,7 +8,7 @@ Agreement with the standard functions over all inputs is value-level and NOT dec
   R3  numbers parsed from text are finite-gated before they become values (C06 typestate)
   R4  duplicate object keys are rejected by both document parsers (only the fallible insert is used)
 """
-from . import kwalk, chartab, units, c06, cg
+from . import kwalk, chartab, units, c06, cg, evalmarks as em
 from .facts import callee_name
 
 EXPLANATION = (
@@ -287,12 +287,109 @@ def rule_r5(F, rep):
     rep.floor(R, n, 2, "to_digit sites in the radix parsers")
 
 
+def rule_r6(F, rep):
+    R = rep.rule("C20.R6", "std.parseInt validates its argument with exactly the ASCII digits: a character reaches the "
+                 "float conversion (whose result is unwrapped) only if it is one of 0-9; every other character — including "
+                 "the Unicode digits and numerics that `f64::from_str` rejects — is reported as 'invalid base 10'")
+    fn = F.fn("<%s>::do_std_parse_int" % em.EVAL)
+    rep.fn(fn)
+    bodies = [fn] + list(F.closures_of(fn))
+    classes = chartab.representatives(fn.body, "char", extra=[0x2D, 0x2E, 0x30, 0x3A, 0x660, 0x66A, 0xB2, 0xB3, 0xBD, 0xFF10, 0xFF1A])
+    PARSE = ("core::str::traits::FromStr>::from_str", "<str>::parse", "core::str::<impl str>::parse")
+    n = 0
+    bad_classes = []
+    for a, b in classes:
+        def hook(w, bb, t, env, args, a=a):
+            nme = callee_name(t) or ""
+            dst = w.norm(env, t["dst"])
+            if nme.endswith("Chars as core::iter::traits::iterator::Iterator>::next"):
+                i = env.get("#cn", 0)
+                env["#cn"] = i + 1
+                if i == 0:
+                    env["%s@Some.0" % dst] = a
+                    return ("var", OPTION, "Some")
+                return ("var", OPTION, "None")
+            if nme.endswith("Iterator>::find") or nme.endswith("Iterator::find") or nme.endswith("Iterator>::all") or \
+                    nme.endswith("Iterator>::any") or nme.endswith("Iterator::all") or nme.endswith("Iterator::any"):
+                # the predicate closure is applied to the one character of the string
+                for x in t["xs"][1:]:
+                    if "t" in x and w.body.ty(x["t"])["k"] == "closure":
+                        c = F.fn_opt(w.body.ty(x["t"])["d"])
+                        if c is None:
+                            return None
+                        res = set()
+                        cw = kwalk.Walker(F, c.body, want_ret=True)
+                        # closure(&mut self, &char) or (char)
+                        env2 = {}
+                        pt = c.body.local_ty(2)
+                        if pt["k"] == "ref":
+                            env2["2"] = ("ref", "CH")
+                            env2["CH"] = a
+                        else:
+                            env2["2"] = a
+                        for kind, marks, ret in cw.run(0, env2):
+                            d = dict(ret or ())
+                            res.add(d.get("0"))
+                        if len(res) == 1 and isinstance(next(iter(res)), int):
+                            v = next(iter(res))
+                            if nme.rsplit("::", 1)[1] == "find":
+                                if v:
+                                    env["%s@Some.0" % dst] = a
+                                    return ("var", OPTION, "Some")
+                                return ("var", OPTION, "None")
+                            return v
+                        return None
+            if nme in ("<str>::is_empty", "<alloc::string::String>::is_empty"):
+                return 0
+            return None
+
+        def on_term(w, bb, t, env):
+            if t["k"] == "call":
+                nme = callee_name(t) or ""
+                if any(nme.endswith(p_) or nme == p_ for p_ in PARSE):
+                    return (kwalk.STOP, ("converted",))
+            return None
+
+        def on_stmt(w, bb, idx, st, env):
+            if st["k"] == "assign" and st["rv"]["k"] == "agg" and st["rv"]["ak"] == "adt" and st["rv"]["adt"] == em.ERRKIND:
+                return ("err", st["rv"]["v"])
+            return None
+        w = kwalk.Walker(F, fn.body, call_result=hook, on_term=on_term, on_stmt=on_stmt, want_ret=True)
+        outs = w.run(0, {})
+        rep.states += w.states_explored
+        res = set()
+        for kind, marks, ret in outs:
+            if kind.startswith("diverge"):
+                continue
+            if ("converted",) in marks:
+                res.add("converted")
+            elif any(m[0] == "err" for m in marks):
+                res.add("rejected")
+        isdigit = 0x30 <= a and b <= 0x39
+        exp = {"converted"} if isdigit else {"rejected"}
+        # the argument-type error of expect_std_func_arg_string is common to all classes
+        res2 = res if isdigit else (res - set())
+        ok = (res2 == exp) if isdigit else ("converted" not in res and "rejected" in res)
+        n += 1
+        rep.ob(R, "parseInt|U+%04X..U+%04X" % (a, b), ok, {"class": "U+%04X..U+%04X" % (a, b), "outcome": sorted(res)}
+               if a in (0x30, 0x2D, 0x660, 0xFF10) else None)
+        if not ok:
+            bad_classes.append(("U+%04X..U+%04X" % (a, b), sorted(res)))
+    if bad_classes:
+        rep.violation(R, "do_std_parse_int|alphabet",
+                      "std.parseInt lets characters other than 0-9 reach the float conversion, or rejects digits: %s%s; only 0-9 "
+                      "may reach it (anything else makes `parse::<f64>().unwrap()` panic or changes the accepted language)"
+                      % (bad_classes[:6], " ... (%d classes)" % len(bad_classes) if len(bad_classes) > 6 else ""), fn.loc)
+    rep.floor(R, n, 8, "character classes")
+
+
 def run(F, rep, tier):
     rule_r1(F, rep)
     units.rule_byte_index(F, rep, "C20.R2")
     c06.rule_r1(F, rep)
     rule_r4(F, rep)
     rule_r5(F, rep)
+    rule_r6(F, rep)
     rep.assume("base64 / UTF-8 / digest / escape-function values, decoder-inverts-encoder, YAML/JSON agreement and "
                "totality inside saphyr-parser are value-level or external and not decided")
     return EXPLANATION
